@@ -1,6 +1,11 @@
 /-
-  C12 (Colang 2.x part) — model of `expand_elements` (nemoguardrails/colang/v2_x/lang/expansion.py) for the
-  control-flow subset: if / elif / else, while / break / continue over statements that expansion leaves alone.
+  C12 (Colang 2.x part) — model of `expand_elements` (nemoguardrails/colang/v2_x/lang/expansion.py):
+  if / elif / else, while / break / continue, match / send / start / await groups (fork / merge / wait templates),
+  start / await / activate / deactivate of flows and actions, NLD assignment, when / or when / else (repaired else path).
+  Groups enter as their disjunctive normal form (`normalize_element_groups` is C07's subject; the harness computes it
+  with the real function).  Not modelled: the aliasing of AST objects between the copies the real compiler makes of a
+  then-body (one per group of its case) and of an else-body (one per case): a `break`/`continue` inside a loop inside
+  such a copy keeps the label of the FIRST copy; here every copy is self-contained (the differential skips those ASTs).
 
   Labels are structured `(prefix, n)` pairs where `n` is the value of the `new_var_uuid()` counter; the
   driver renders them as `prefix ++ toString n`, the harness compares with the real output up to renaming of
@@ -19,6 +24,153 @@ open NemoVerif.Closed
 
 abbrev Lbl := String × Nat
 
+/-! ### generators: a piece of output that draws uids from the counter -/
+
+abbrev Gen := Nat → List (Prim Lbl) × Nat
+
+def genConst (ps : List (Prim Lbl)) : Gen := fun c => (ps, c)
+
+/-! ### atoms of spec groups (after `normalize_element_groups`, which is C07's subject) -/
+
+inductive AtomK where
+  | ev        -- an event, or anything with members (`$ref.Finished()`): only matched
+  | flow      -- SpecType.FLOW, members None: started, then `$ref.Finished()` is matched
+  | action    -- SpecType.ACTION, members None
+  deriving DecidableEq, Repr
+
+structure Atom where
+  k : AtomK
+  ref : Bool        -- `as $r` given
+  deriving DecidableEq, Repr
+
+abbrev Clause := List Atom
+abbrev DNF := List Clause
+
+def pSend : Prim Lbl := .specOp "send" false false
+def pMatch : Prim Lbl := .specOp "match" false false
+def pAssign : Prim Lbl := .assign false
+
+/-- `_expand_start_element` on a single spec: flow → `$uid = ..; send StartFlow; match FlowStarted; $ref = ..`,
+    action → `_new_action_instance; send Start` -/
+def startAtom : AtomK → List (Prim Lbl)
+  | .flow => [pAssign, pSend, pMatch, pAssign]
+  | .action => [.specOp "_new_action_instance" false false, pSend]
+  | .ev => []
+
+def startAll (cl : Clause) : List (Prim Lbl) := cl.flatMap fun a => startAtom a.k
+
+/-! ### the fork / merge / wait templates of `_expand_match_element`, `_expand_element_group`, `_expand_await_element` -/
+
+inductive Variant where
+  | andV      -- match and-group:   … fail: merge, catch None, abort; end: wait n, merge, catch None
+  | orV       -- or-groups:         … fail: wait n, merge, catch None, abort; end: merge, catch None
+  | scopedV   -- await or-groups:   begin scope … fail: wait n, catch None, end scope, abort; end: merge, catch None, end scope
+  deriving DecidableEq, Repr
+
+def itemLabels (pre : Nat → String) (c : Nat) : Nat → Nat → List Lbl
+  | _, 0 => []
+  | i, n + 1 => (pre i, c + i) :: itemLabels pre c (i + 1) n
+
+/-- `label l_i; <body_i>; goto end` for every branch -/
+def forkItems (e : Lbl) : List Lbl → List Gen → Gen
+  | l :: ls, g :: gs, c =>
+    let a := g c
+    let r := forkItems e ls gs a.2
+    (.label l :: a.1 ++ .goto e :: r.1, r.2)
+  | _, _, c => ([], c)
+
+def trailer (v : Variant) (u f e s : Lbl) (n : Nat) : List (Prim Lbl) :=
+  match v with
+  | .andV => [.label f, .merge u, .catchFail none, .abort, .label e, .waitHeads n, .merge u, .catchFail none]
+  | .orV => [.label f, .waitHeads n, .merge u, .catchFail none, .abort, .label e, .merge u, .catchFail none]
+  | .scopedV => [.label f, .waitHeads n, .catchFail none, .endScope s, .abort, .label e, .merge u, .catchFail none, .endScope s]
+
+def header (v : Variant) (u f s : Lbl) (ls : List Lbl) : List (Prim Lbl) :=
+  (match v with | .scopedV => [.beginScope s] | _ => []) ++ [.catchFail (some f), .fork u ls]
+
+/-- uids: fork `c`, failure label `c+1`, end label `c+2`, scope `c+3`, branch labels `c+4 …`, then the bodies -/
+def forkTemplate (v : Variant) (pre : Nat → String) (gens : List Gen) : Gen := fun c =>
+  let n := gens.length
+  let u : Lbl := ("", c)
+  let f : Lbl := ("failure_label_", c + 1)
+  let e : Lbl := ("end_label_", c + 2)
+  let s : Lbl := ("scope_", c + 3)
+  let ls := itemLabels pre (c + 4) 0 n
+  let items := forkItems e ls gens (c + 4 + n)
+  (header v u f s ls ++ items.1 ++ trailer v u f e s n, items.2)
+
+def eventPre (i : Nat) : String := "event_" ++ toString i ++ "_"
+def groupPre (i : Nat) : String := "group_" ++ toString i ++ "_"
+
+/-- `match` on an and-group of `n` specs (second pass of `_expand_match_element`) -/
+def matchClause (n : Nat) : Gen :=
+  if n ≤ 1 then genConst [pMatch]
+  else forkTemplate .andV eventPre ((List.replicate n (genConst [pMatch])))
+
+/-- a group: one clause is emitted inline, several clauses go through the or-template -/
+def orGroup (v : Variant) (bodies : List Gen) : Gen :=
+  match bodies with
+  | [b] => b
+  | _ => forkTemplate v groupPre bodies
+
+def matchGroup (d : List Nat) : Gen := orGroup .orV (d.map matchClause)
+def sendGroup (d : List Nat) : Gen := orGroup .orV (d.map fun n => genConst (List.replicate n pSend))
+def startGroup (d : DNF) : Gen := orGroup .orV (d.map fun cl => genConst (startAll cl))
+
+def refAssigns (cl : Clause) : List (Prim Lbl) := (cl.filter fun a => a.ref).map fun _ => pAssign
+
+/-- a clause of `await`: start everything, match all `Finished()`, copy the references -/
+def awaitClause (cl : Clause) : Gen := fun c =>
+  let m := matchClause cl.length c
+  (startAll cl ++ m.1 ++ refAssigns cl, m.2)
+
+def awaitGroup (d : DNF) : Gen := orGroup .scopedV (d.map awaitClause)
+
+/-- a group of a `when` case: only flows / actions are started, the references are copied only if something was started -/
+def whenClause (cl : Clause) : Gen := fun c =>
+  let started := cl.filter fun a => a.k != .ev
+  let m := matchClause cl.length c
+  (startAll started ++ m.1 ++ (if started.isEmpty then [] else refAssigns started), m.2)
+
+def caseLetter (i : Nat) : String := String.singleton (Char.ofNat (97 + i))
+
+/-- the groups of one `when` case; the then-body is expanded once PER GROUP (`thenG` draws new uids each time) -/
+def whenGroups (S : Nat) (u : Lbl) (i : Nat) (ng : Nat) (thenG : Gen) : Nat → List Clause → Gen
+  | _, [], c => ([], c)
+  | g, cl :: cls, c =>
+    let L := caseLetter i
+    let body := whenClause cl c
+    let th := thenG body.2
+    let rest := whenGroups S u i ng thenG (g + 1) cls th.2
+    ([.label ("group_" ++ L ++ "_" ++ toString g ++ "_label_", S)] ++ body.1 ++
+      [.goto ("case_" ++ L ++ "_label_", S), .label ("case_" ++ L ++ "_label_", S), .merge u, .catchFail none,
+       .endScope ("scope_", S)] ++ th.1 ++
+      [.goto ("when_end_label_", S), .label ("failure_case_" ++ L ++ "_label_", S), .waitHeads ng, .catchFail none,
+       .goto ("when_else_label_", S)] ++ rest.1, rest.2)
+
+def groupLabelsOf (S : Nat) (i : Nat) : Nat → Nat → List Lbl
+  | _, 0 => []
+  | g, n + 1 => ("group_" ++ caseLetter i ++ "_" ++ toString g ++ "_label_", S) :: groupLabelsOf S i (g + 1) n
+
+/-- the else group, emitted once PER CASE (repaired version, /repo 3c50707: merge the case heads and close the scope) -/
+def whenElse (S : Nat) (u : Lbl) (ncases : Nat) (hasElse : Bool) (elseG : Gen) : Gen := fun c =>
+  let el := if hasElse then elseG c else ([], c)
+  ([.label ("when_else_label_", S), .waitHeads ncases, .merge u, .endScope ("scope_", S)] ++
+    (if hasElse then [.goto ("when_else_statement_label_", S), .label ("when_else_statement_label_", S)] ++ el.1 else [.abort]) ++
+    [.label ("when_end_label_", S)], el.2)
+
+/-- one case: `label init; catch failure_case; fork groups; <groups>; <else group>` -/
+def whenCase (S : Nat) (u : Lbl) (i ncases : Nat) (gu : Lbl) (d : DNF) (hasElse : Bool) (thenG elseG : Gen) : Gen := fun c =>
+  let L := caseLetter i
+  let gs := whenGroups S u i d.length thenG 0 d c
+  let el := whenElse S u ncases hasElse elseG gs.2
+  ([.label ("init_case_" ++ L ++ "_label_", S), .catchFail (some ("failure_case_" ++ L ++ "_label_", S)),
+    .fork gu (groupLabelsOf S i 0 d.length)] ++ gs.1 ++ el.1, el.2)
+
+def initLabelsOf (S : Nat) : Nat → Nat → List Lbl
+  | _, 0 => []
+  | i, n + 1 => ("init_case_" ++ caseLetter i ++ "_label_", S) :: initLabelsOf S (i + 1) n
+
 inductive Stmt where
   | send                      -- `send Ev(..)` single event          → SpecOp(op="send")
   | matchEv                   -- `match Ev(..)` single event         → SpecOp(op="match")
@@ -30,6 +182,15 @@ inductive Stmt where
   | cont
   | ifS (thenB elseB : List Stmt)   -- `else_elements` None or [] = no else; `elif` is an `If` nested in the else
   | whileS (body : List Stmt)
+  | matchG (d : List Nat)     -- `match <group>`: sizes of the clauses of the normalised group
+  | sendG (d : List Nat)      -- `send <group>`
+  | startS (d : DNF)          -- `start <spec or group>` of flows / actions
+  | awaitOne (k : AtomK) (retVar : Bool)   -- `[$x =] await <single flow / action>`
+  | awaitG (d : DNF)          -- `await <group>`
+  | activateS (n : Nat)       -- `activate f1 and … fn`
+  | deactivateS (n : Nat)
+  | nld                       -- `$x = ..."instruction"`  → await GenerateValueAction
+  | whenS (specs : List DNF) (thens : List (List Stmt)) (elseB : List Stmt) (hasElse : Bool)
 
 mutual
   def expand (cb : Option (Lbl × Lbl)) : List Stmt → Nat → List (Prim Lbl) × Nat
@@ -63,7 +224,49 @@ mutual
       else
         let fe := expand cb f te.2
         ([.goto elseL] ++ te.1 ++ [.goto endL, .label elseL] ++ fe.1 ++ [.label endL], fe.2)
+    | .matchG d, c => matchGroup d c
+    | .sendG d, c => sendGroup d c
+    | .startS d, c => startGroup d c
+    | .awaitOne k rv, c => (startAtom k ++ [pMatch] ++ (if rv then [pAssign] else []), c)
+    | .awaitG d, c => awaitGroup d c
+    | .activateS n, c => ((List.replicate n [pAssign, pSend, pMatch]).flatten, c)
+    | .deactivateS n, c => (List.replicate n pSend, c)
+    | .nld, c => ([.specOp "_new_action_instance" false false, pSend, pMatch, pAssign], c)
+    | .whenS specs thens els hasElse, c =>
+      -- stmt_uid `c` is shared by the scope and every label; cases fork `c+1`; groups fork of case i `c+2+i`
+      let u : Lbl := ("", c + 1)
+      let cases := expandCases cb c u specs.length hasElse (fun k => expand cb els k) 0 specs thens (c + 2 + specs.length)
+      ([.beginScope ("scope_", c), .fork u (initLabelsOf c 0 specs.length)] ++ cases.1, cases.2)
+  /-- the cases of a `when`, in parallel over the specs and the then-bodies -/
+  def expandCases (cb : Option (Lbl × Lbl)) (S : Nat) (u : Lbl) (ncases : Nat) (hasElse : Bool) (elseG : Gen) :
+      Nat → List DNF → List (List Stmt) → Nat → List (Prim Lbl) × Nat
+    | i, d :: ds, t :: ts, c =>
+      let a := whenCase S u i ncases ("", S + 2 + i) d hasElse (fun k => expand cb t k) elseG c
+      let r := expandCases cb S u ncases hasElse elseG (i + 1) ds ts a.2
+      (a.1 ++ r.1, r.2)
+    | _, _, _, c => ([], c)
 end
+
+mutual
+  /-- shapes the parser guarantees: a `when` has at least one case, as many then-bodies as cases, and every case
+      at least one group (on other inputs the real compiler raises IndexError or leaves the scope open) -/
+  def wfList : List Stmt → Bool
+    | [] => true
+    | s :: r => wfStmt s && wfList r
+  def wfStmt : Stmt → Bool
+    | .ifS t f => wfList t && wfList f
+    | .whileS b => wfList b
+    | .whenS specs thens els _ =>
+      !specs.isEmpty && specs.length == thens.length && specs.all (fun d => !d.isEmpty) && wfLists thens && wfList els
+    | _ => true
+  def wfLists : List (List Stmt) → Bool
+    | [] => true
+    | t :: ts => wfList t && wfLists ts
+end
+
+def cbList : Option (Lbl × Lbl) → List Lbl
+  | none => []
+  | some (b, e) => [b, e]
 
 /-- `initialize_flow`: top level, no enclosing loop -/
 def expandFlow (ss : List Stmt) : List (Prim Lbl) := (expand none ss 0).1
